@@ -3,6 +3,8 @@
 // one zero-count rule of the checker, so a rule that stops firing here is dead.
 package zzverifpositive
 
+import "os"
+
 var counter int
 
 var cache = map[string]int{}
@@ -37,4 +39,17 @@ func KeysUnsorted(m map[string]int) []string {
 		out = append(out, k)
 	}
 	return out
+}
+
+// LeaksOnError violates R10.5 RES-PAIR: the error return after a successful
+// open does not close the file.
+func LeaksOnError(name string) (*os.File, error) {
+	f, err := os.Open(name)
+	if err != nil {
+		return nil, err
+	}
+	if _, err := f.Stat(); err != nil {
+		return nil, err
+	}
+	return f, nil
 }
